@@ -338,6 +338,43 @@ def run_case(col, case, only_rect=None):
                             bad("graphics-horizontal-not-blank", f"content{tuple(rect)} row {i} is not {cols} "
                                 f"blank cells: {data[:80]!r}", rect=rect, hcut=hcut)
                             break
+    # ---- interleaved iterators: content() is a generator and urwid (shard_body / shard_body_row) keeps several
+    # of them open on the SAME canvas when something narrower than the image covers it: the part left of the
+    # cover and the part right of it are advanced in lock step.  Each must yield what it yields alone.
+    if text and only_rect is None and not case.get("rerender"):
+        alone = {}
+
+        def rows_alone(r):
+            if r not in alone:
+                alone[r] = [row_bytes(x) for x in canv.content(*r)]
+            return alone[r]
+
+        for a in range(1, W):
+            for b in range(a, W):
+                for tt, rows in {(0, H), (min(1, H - 1), max(H - 1 - min(1, H - 1), 1))}:
+                    r1, r2 = (0, tt, a, rows), (b, tt, W - b, rows)
+                    for first, second in ((r1, r2), (r2, r1)):
+                        col.count()
+                        col.inc("interleaved_pairs")
+                        it1, it2 = canv.content(*first), canv.content(*second)
+                        got1, got2 = [], []
+                        try:
+                            for x, y in zip(it1, it2):
+                                got1.append(row_bytes(x))
+                                got2.append(row_bytes(y))
+                        except Exception as e:  # noqa: BLE001
+                            bad("exception-interleaved", f"content{first} and content{second} advanced in lock step "
+                                f"raised {type(e).__name__}: {e}", rect=None, exc=type(e).__name__)
+                            continue
+                        for r, got in ((first, got1), (second, got2)):
+                            if got != rows_alone(r):
+                                i = next((k for k, (p, q) in enumerate(zip(got, rows_alone(r))) if p != q), len(got))
+                                bad("interleaved-iterators-differ", f"content{r} of a {W}x{H} canvas (image {iw}x{ih} "
+                                    f"at +{pl}+{pt}) advanced in lock step with content{second if r is first else first}"
+                                    f" yields a different row {i} than when iterated alone: "
+                                    f"{got[i][:80] if i < len(got) else None!r} vs "
+                                    f"{rows_alone(r)[i][:80] if i < len(rows_alone(r)) else None!r}",
+                                    rect=None, other_first=r is second)   # replay = the whole canvas
     col.inc("canvases")
     col.inc("proper_trims", nontrivial)
     col.max("trims_per_canvas", nontrivial + 1)
